@@ -3,6 +3,7 @@ package c19
 import (
 	"encoding/json"
 	"fmt"
+	"os"
 	"path/filepath"
 	"strings"
 
@@ -182,7 +183,90 @@ func validatePaths(c *common.Ctx, format string, spell string) {
 	c.NonTrivial()
 }
 
+// outputFileReused: what a command writes to its output file must not depend on what the file held before (an
+// earlier, longer report; an earlier formatting result).  Every command x input channel that has an output-file option.
+func outputFileReused(c *common.Ctx, name string, args []string, stdin *string, files []file) {
+	sb := newSandbox()
+	defer sb.close()
+	run := func(prefill string) (string, bool, result) {
+		sb.put(files)
+		os.Remove(sb.path("out.txt"))
+		if prefill != "" {
+			sb.putOne("out.txt", prefill)
+		}
+		r := sb.run(nil, stdin, args...)
+		got, ok := sb.read("out.txt")
+		return got, ok, r
+	}
+	c.Input(describe(args, files, stdin))
+	fresh, ok1, r1 := run("")
+	junk := strings.Repeat("{\"earlier\": \"report\", \"files\": [\"old.sql\"]}\n", 200)
+	reused, ok2, r2 := run(junk)
+	if r1.TimedOut || r2.TimedOut {
+		return
+	}
+	if r1.Exit != r2.Exit {
+		c.Fail("output-file-reused:exit:"+name, fmt.Sprintf("exit status %d with a fresh output file, %d when the file existed before\n%s", r1.Exit, r2.Exit, describe(args, files, stdin)))
+	}
+	if !ok1 {
+		// the command does not write its output file for this input (a failed run): an earlier file then stays as it was
+		if !ok2 || reused != junk {
+			c.Fail("output-file-reused:touched-by-failed-run:"+name, fmt.Sprintf("the run writes no output file when none exists, but changes an existing one to %q\n%s", common.Trim(reused, 200), describe(args, files, stdin)))
+		}
+		c.Outcome("output-file-reused:not-written:" + name)
+		return
+	}
+	// reports carry run times, so two runs need not be byte-identical: the file must be the new output alone - nothing
+	// of the earlier content, and (for the JSON formats) one well-formed document
+	same := fresh == reused
+	if !same && ok2 && !strings.Contains(reused, "\"earlier\"") && !strings.Contains(reused, "old.sql") && len(reused) < len(fresh)+256 {
+		same = true
+		if strings.Contains(name, "json") || strings.Contains(name, "sarif") {
+			var doc any
+			dec := json.NewDecoder(strings.NewReader(reused))
+			if dec.Decode(&doc) != nil || strings.TrimSpace(reused[dec.InputOffset():]) != "" {
+				same = false
+			}
+		}
+	}
+	if ok1 != ok2 || !same {
+		c.Fail("output-file-reused:content:"+name, fmt.Sprintf("the output file holds %q when it did not exist before (exists=%v) and %q when it held an earlier, longer report (exists=%v)\n%s",
+			common.Trim(fresh, 200), ok1, common.Trim(reused, 200), ok2, describe(args, files, stdin)))
+	}
+	c.Outcome("output-file-reused:" + name)
+	if ok1 {
+		c.NonTrivial()
+	}
+}
+
 func enumValidate(e *common.Enum) {
+	for _, f := range []file{baseClasses[0], baseClasses[1], baseClasses[3]} {
+		f := f
+		in := f.Content
+		for _, v := range []struct {
+			name  string
+			args  []string
+			stdin *string
+			files []file
+		}{
+			{"format:file", []string{"format", "-o", "out.txt", f.Name}, nil, []file{f}},
+			{"format:stdin", []string{"format", "-o", "out.txt"}, &in, nil},
+			{"format:inline", []string{"format", "-o", "out.txt", strings.TrimSpace(f.Content)}, nil, nil},
+			{"validate-json:file", []string{"validate", "--output-format", "json", "--output-file", "out.txt", f.Name}, nil, []file{f}},
+			{"validate-json:stdin", []string{"validate", "--output-format", "json", "--output-file", "out.txt"}, &in, nil},
+			{"validate-json:inline", []string{"validate", "--output-format", "json", "--output-file", "out.txt", strings.TrimSpace(f.Content)}, nil, nil},
+			{"validate-sarif:file", []string{"validate", "--output-format", "sarif", "--output-file", "out.txt", f.Name}, nil, []file{f}},
+			{"validate-sarif:stdin", []string{"validate", "--output-format", "sarif", "--output-file", "out.txt"}, &in, nil},
+			{"lint:file", []string{"lint", "-o", "out.txt", f.Name}, nil, []file{f}},
+			{"parse:file", []string{"parse", "-o", "out.txt", f.Name}, nil, []file{f}},
+		} {
+			v := v
+			if strings.Contains(v.name, "inline") && !looksLikeSQL(f.Content) {
+				continue
+			}
+			do(e, "output-file-reused|"+v.name+"|"+f.Class, func(c *common.Ctx) { outputFileReused(c, v.name, v.args, v.stdin, v.files) })
+		}
+	}
 	for _, format := range []string{"json", "sarif"} {
 		for _, spell := range []string{"plain", "dot", "sub-dotdot", "dot-sub-dotdot", "dotdot-base", "inner-dot", "double-slash"} {
 			format, spell := format, spell
